@@ -264,9 +264,25 @@ func runC13(c *Ctx) {
 	if b.Proxy.Alive() && c.ViolationCount() == 0 {
 		c13Aborted(c, b, listeners)
 	}
-	if b.Proxy.Alive() && c.ViolationCount() == 0 {
-		c13SlowReader(c, b, listeners)
-	}
+	slowDone := make(chan struct{})
+	go func() { // a bed of its own (listeners with a 16 kB send buffer), mostly waiting: overlaps with the limit part
+		defer close(slowDone)
+		if c.ViolationCount() > 0 {
+			return
+		}
+		sb, err := NewBed(c, "slow", BedOpts{Listeners: listeners, Upstreams: []string{"pipe"}, TcpSndBuf: 16 << 10, IdleTimeout: 60})
+		if err != nil {
+			c.startFailure(err, "c13-slow")
+			return
+		}
+		c13SlowReader(c, sb, listeners)
+		alive := sb.Proxy.Alive()
+		res := sb.Stop()
+		if !alive {
+			c.Violation("proxy-died", "the proxy process died during the slow-reader workload: "+res.Panic, map[string]any{"panic": res.Panic})
+		}
+	}()
+	defer func() { <-slowDone }()
 	alive := b.Proxy.Alive()
 	res := b.Stop()
 	if !alive {
